@@ -47,9 +47,10 @@ static void get_mod_disp(struct instr *instr_buffer, bool neg) {
     else if (memory_offset > MAX_SIGNED_8BIT)
       instr_buffer->mod_disp &= MOD16;
   } else {
-    if (IN_RANGE(memory_offset, 1, MAX_UNSIGNED_8BIT))
+    // 2's complement of -0x80..-1 fits in a sign extended 8-bit displacement
+    if (memory_offset >= NEG80_32BIT)
       instr_buffer->mod_disp &= MOD8;
-    else if (memory_offset > MAX_UNSIGNED_8BIT)
+    else
       instr_buffer->mod_disp &= MOD16;
   }
 }
